@@ -4,6 +4,7 @@ CONSTANTS
   ResultsAliased = FALSE
   GetMemberRewinds = TRUE
   LazyScanDiesOnFault = FALSE
+  CloseForgetsPosition = FALSE
   EmitH = FALSE
 SPECIFICATION Spec
 INVARIANT CacheCoherent
